@@ -8,4 +8,9 @@ def pairsBTrees : List Shape := (Shape.bins binOps (sh1 unOps binOps) sh0)
 set_option maxRecDepth 100000 in
 theorem pairsB_exact : (pairsBTrees.all fun s => devsExact s.eqn) = true := by decide +kernel
 
+set_option maxRecDepth 100000 in
+/-- every text form of every tree of this part round-trips -/
+theorem pairsB_all : (pairsBTrees.all fun s => roundTripsEqn s.eqn && roundTripsScript s.eqn && roundTripsFilter s.eqn) = true := by
+  decide +kernel
+
 end OjgVerif.JPText
